@@ -141,7 +141,8 @@ class Message(BaseMessage):
             raise ValueError('copy must be same message type')
 
         if 'data' in overrides:
-            overrides['data'] = bytearray(overrides['data'])
+            # (bytearray(5) is five zero bytes, not an error.)
+            overrides['data'] = SysexData(overrides['data'])
 
         msgdict = vars(self).copy()
         msgdict.update(overrides)
